@@ -264,6 +264,7 @@ def adjust_offsets_w_sustain(
 ) -> None:
     # get all note offsets
     offs = np.fromiter((n["note_off"] for n in notes), dtype=float)
+    note_offs = offs.copy()
     first_off = np.min(offs)
     last_off = np.max(offs)
 
@@ -306,13 +307,25 @@ def adjust_offsets_w_sustain(
     for pitch in np.unique(pitches):
         pitch_indices = np.where(pitches == pitch)[0]
 
-        sorted_indices = pitch_indices[np.argsort(note_ons[pitch_indices])]
+        sorted_indices = pitch_indices[
+            np.argsort(note_ons[pitch_indices], kind="stable")
+        ]
         sorted_note_ons = note_ons[sorted_indices]
-        sorted_sound_offs = offs[sorted_indices]
 
-        adjusted_sound_offs = np.minimum(sorted_sound_offs[:-1], sorted_note_ons[1:])
+        # the first later onset of the same pitch that is not before the
+        # release of the note: an overlapping note of the same pitch (e.g.
+        # on another channel) that starts while the key is still held must
+        # not end the note before its note_off
+        next_onset_idx = np.maximum(
+            np.searchsorted(sorted_note_ons, note_offs[sorted_indices], side="left"),
+            np.arange(1, len(sorted_indices) + 1),
+        )
+        has_reonset = next_onset_idx < len(sorted_indices)
+        clipped = sorted_indices[has_reonset]
 
-        offs[sorted_indices[:-1]] = adjusted_sound_offs
+        offs[clipped] = np.minimum(
+            offs[clipped], sorted_note_ons[next_onset_idx[has_reonset]]
+        )
 
     for offset, note in zip(offs, notes):
         note["sound_off"] = offset
